@@ -249,3 +249,17 @@ Proof.
       destruct T; try discriminate Hv;
       (rewrite sweeps_release_nothing; [vm_compute; reflexivity | exact Hs | vm_compute; discriminate]).
 Qed.
+
+(* ------------------------------------------------------------------ finding F8 (open): alloc + dealloc *)
+
+(* dealloc releases an alloc()ed object but leaves its registry entry; the next sweep then runs the
+   release sequence on the released block (in a debug build Type_Of's magic-number test turns this into a
+   ValueError thrown out of the collection; nothing in the model stands for a reused block) *)
+Lemma alloc_dealloc_stale_entry :
+  forall T, kind_of T <> KType ->
+    let c := cfg_src false in
+    let o1 := fst (fst (m_op c OpDealloc (m_produce c PAlloc T T T))) in
+    snd (m_op c OpDealloc (m_produce c PAlloc T T T)) = [FreeObj] /\
+    o_reg o1 = RAuto /\
+    snd (fst (m_op c OpSweep o1)) = ORaise ValueError.
+Proof. intros T H. destruct T; try (exfalso; apply H; reflexivity); vm_compute; repeat split. Qed.
